@@ -9,7 +9,7 @@ LEVEL_TEXT = (
     "candidate-set monitor."
 )
 RULE = R.__dict__.get("RULE", "") or (
-    "resolve: every sequence up to length 3 (quick) / 4 (thorough) over a 21-symbol alphabet of citation kinds "
+    "resolve: every sequence up to length 3 (quick) / 4 (thorough) over a 24-symbol alphabet of citation kinds "
     "(exhaustive), sampled longer sequences, and lists extracted from generated documents; the monitor recomputes "
     "the admissible candidate set of every non-full citation from the property text. Non-trivial = some group has "
     ">= 2 members; distinct by the symbol sequence / document."
